@@ -1517,6 +1517,11 @@ cdef class NNPS(NNPSBase):
             for cache in self.cache:
                 cache.update()
 
+        # _refresh may have re-allocated what set_context handed out for the
+        # loaded (source, destination) pair: load that pair again.
+        if self.current_cache is not None:
+            self.set_context(self.src_index, self.dst_index)
+
     cdef void get_nearest_neighbors(self, size_t d_idx, UIntArray nbrs) noexcept nogil:
         if self.use_cache:
             self.current_cache.get_neighbors_raw(d_idx, nbrs)
